@@ -622,6 +622,52 @@ def real_runs(chk, hy, comp, docs, max_n, per):
                     chk.fail("macro-vs-pyops", desc, repr(r_fn), repr(r_macro), how)
 
 
+LIT_INTS = [0, 1, 2, 3, 60, 24, -1, 7]
+LIT_FLOATS = [0.1, 1e16, 0.5, 1.5, 0.3, 1e-3]
+
+
+def literal_runs(chk, hy, docs, per):
+    """operands written as LITERALS in the form (the other runs pass them as variables): the macro must still be
+    the documented left fold, whatever the compiler does with constants.  Mixed int / float literals and
+    variables, 2-5 operands"""
+    import hy.pyops
+    rng = chk.rng
+    for name in ["+", "*", "-", "/", "//", "%", "**", "&", "|", "^", "<<", ">>"]:
+        f = getattr(hy.pyops, hy.mangle(name))
+        for k in range(per):
+            n = rng.choice([2, 3, 3, 4, 4, 5])
+            vals, parts, env = [], [], {}
+            ints_only = name in ("&", "|", "^", "<<", ">>")
+            for i in range(n):
+                v = rng.choice(LIT_INTS if ints_only or rng.random() < 0.6 else LIT_FLOATS)
+                if name == "**" and i > 0:
+                    v = rng.choice([0, 1, 2, 0.5])
+                if name in ("<<", ">>") and i > 0:
+                    v = rng.choice([0, 1, 2, 3])
+                vals.append(v)
+                if rng.random() < 0.25:
+                    env["lit_v%d" % i] = v
+                    parts.append("lit-v%d" % i)
+                else:
+                    parts.append(hy.repr(v))
+            src = "(%s %s)" % (name, " ".join(parts))
+            py = doc_python(docs[name], n)
+            code = compile(py, "<doc>", "eval") if py is not None else None
+            r_macro = run3(lambda: hy.eval(hy.read(src), dict(env)))
+            r_fn = run3(lambda: f(*vals))
+            r_doc = run3(lambda: eval(code, {}, {"a%d" % i: v for i, v in enumerate(vals)})) if code else None
+            chk.count("literal-operands:" + name)
+            chk.case(("lit", src, repr(sorted(env.items()))), nontrivial=True,
+                     sample={"form": src, "macro": repr(r_macro)} if k == 0 and name in ("+", "*") else None)
+            desc = {"form": src, "variables": env, "operands": [repr(v) for v in vals]}
+            how = "PYTHONPATH=%s python -c 'import hy; print(hy.eval(hy.read(%r), %r))' vs hy.pyops.%s(*operands)" % (
+                vlib.REPO, src, env, hy.mangle(name))
+            if r_doc is not None and r_macro != r_doc:
+                chk.fail("literal-macro-vs-doc", dict(desc, python=py), repr(r_macro), repr(r_doc), how)
+            if r_macro != r_fn:
+                chk.fail("literal-macro-vs-pyops", desc, repr(r_fn), repr(r_macro), how)
+
+
 def aug_runs(chk, hy, comp, docs, max_n, per):
     """(op= x v1 .. vn) against  x op= (v1 AGG v2 ... AGG vn)  with the DOCUMENTED aggregator"""
     for name in MATHS:
@@ -865,6 +911,7 @@ def run(chk):
             rt = runtime_doc(hy, name)
             docs[name] = rt or {"nullary": None, "unary": "not x", "binary": None, "nary": None, "agg": None}
     real_runs(chk, hy, comp, docs, max_n, 400 if thorough else 36)
+    literal_runs(chk, hy, docs, 1500 if thorough else 150)
     aug_runs(chk, hy, comp, docs, max_n, 120 if thorough else 14)
     shadow_runs(chk, hy, comp, 6 if thorough else 5, 12 if thorough else 3)
     evaluation_runs(chk, hy, comp, max_n)
